@@ -190,6 +190,26 @@ def generate(rng, n, tier="quick"):
         case = session(cfg, [], {"api": "render_template", "src": tpl}, {"s": "<i>&", "xs": ["<", ">"]})
         case["id"] = "%s-w%02d" % (ID, j)
         out.append((case, {"expect": ["text", exp, None], "plain": None, "text": exp, "form": "text", "tpl": tpl, "strict": False}))
+    # directed: a missing argument is a missing argument also after a decorator replaced the render context (strict mode:
+    # ParamNotFoundForName; non-strict: the declared type decides), and a present one is converted as before
+    cfgd = lambda strict: {"escape": "html", "strict": strict, "decorators": [{"name": "setctx", "kind": "setctx"}],
+                           "helpers": [{"name": "pr", "kind": "probe"}] + [{"name": nm_, "kind": "macro", "sig": sig_json(nm_)} for nm_ in ("m_str", "m_i64", "m_ident")]}
+    jd = 0
+    for strict in (False, True):
+        for pre in ("{{*setctx this}}", "{{*setctx o}}", "{{#with o}}{{*setctx this}}", ""):
+            for call, sname in (("m_str nothing", "m_str"), ("m_i64 nothing", "m_i64"), ("m_ident nothing", "m_ident"), ("m_str s", "m_str")):
+                post = "{{/with}}" if pre.startswith("{{#with") else ""
+                tpl = pre + "[{{" + call + "}}]" + post
+                case = session(cfgd(strict), [], {"api": "render_template", "src": tpl}, {"s": "S", "o": {"s": "T"}})
+                case["id"] = "%s-setctx%02d" % (ID, jd)
+                jd += 1
+                if call.endswith(" s"):
+                    exp = ["any", "", None]
+                elif strict:
+                    exp = ["err", "ParamNotFoundForName", [sname, "x"]]
+                else:
+                    exp = ["any", "", None]
+                out.append((case, {"expect": exp, "plain": None, "text": None, "form": "setctx", "tpl": tpl, "strict": strict}))
     # the families of the Lean theorems C20.macro_helper_converts_and_writes / macro_helper_rejects_wrong_type_at_the_tag:
     # L ++ {{name 1}} ++ R with `name` (any identifier) registered for the family's |x: Json| x  →  L ++ escape("1") ++ R (exact);
     # registered for the family's |x: str| …  →  ParamTypeMismatchForName(m_str, x, str) at the tag, after exactly L was written
@@ -227,6 +247,8 @@ def oracle(case, meta, impl):
         if l.get("r") == "ok" and l.get("out") == meta["text"]:
             return []
         return ["%s: written %r, expected %r" % (meta["tpl"], l.get("out", l.get("reason")), meta["text"])]
+    if kind == "any":
+        return []
     if kind == "errat":
         reason, args = meta["expect"][1], meta["expect"][2]
         ok = (l.get("r") == "rerr" and l.get("reason") == reason and (l.get("args") or [])[:2] == args and l.get("line") == meta["line"]
